@@ -278,7 +278,41 @@ type pathCheck struct {
 	fieldWhy map[string]string
 }
 
+// pframe: the value is looked at inside a helper that was entered through call (in the caller's frame parent).
+type pframe struct {
+	call   *ssa.Call
+	callee *ssa.Function
+	parent *pframe
+}
+
+// argOf maps a parameter of the frame's callee to the caller's argument.
+func (fr *pframe) argOf(p *ssa.Parameter) (ssa.Value, bool) {
+	if fr == nil || p.Parent() != fr.callee {
+		return nil, false
+	}
+	for i, q := range fr.callee.Params {
+		if q == p && i < len(fr.call.Call.Args) {
+			return fr.call.Call.Args[i], true
+		}
+	}
+	return nil, false
+}
+
 func (pc *pathCheck) component(v ssa.Value, at ssa.Instruction, depth int) (bool, string) {
+	return pc.componentIn(v, at, depth, nil)
+}
+
+// helperOf: a call of a function of this module that is not part of the store API (a helper whose result
+// is examined in place, with its parameters standing for the caller's arguments).
+func (pc *pathCheck) helperOf(x *ssa.Call) *ssa.Function {
+	sc := x.Call.StaticCallee()
+	if sc == nil || len(sc.Blocks) == 0 || !strings.HasPrefix(core.FuncPkgPath(sc), pc.c.P.Module) {
+		return nil
+	}
+	return sc
+}
+
+func (pc *pathCheck) componentIn(v ssa.Value, at ssa.Instruction, depth int, fr *pframe) (bool, string) {
 	c := pc.c
 	if depth > 10 {
 		return false, "component too deep to trace"
@@ -290,7 +324,7 @@ func (pc *pathCheck) component(v ssa.Value, at ssa.Instruction, depth int) (bool
 	switch x := v.(type) {
 	case *ssa.Phi:
 		for _, e := range x.Edges {
-			if ok, why := pc.component(e, at, depth+1); !ok {
+			if ok, why := pc.componentIn(e, at, depth+1, fr); !ok {
 				return false, why
 			}
 		}
@@ -298,13 +332,17 @@ func (pc *pathCheck) component(v ssa.Value, at ssa.Instruction, depth int) (bool
 	case *ssa.BinOp:
 		if x.Op == token.ADD {
 			for _, e := range []ssa.Value{x.X, x.Y} {
-				if ok, why := pc.component(e, at, depth+1); !ok {
+				if ok, why := pc.componentIn(e, at, depth+1, fr); !ok {
 					return false, why
 				}
 			}
 			return true, ""
 		}
 	case *ssa.Parameter:
+		// a parameter of a helper entered through a call: the caller's argument, at the call
+		if arg, ok := fr.argOf(x); ok {
+			return pc.componentIn(arg, fr.call, depth+1, fr.parent)
+		}
 		// the repository name parameter of a Store.RepoGet implementation (validated by PV-REPO)
 		fn := x.Parent()
 		if fn.Signature.Recv() != nil && pc.r.APIMethods["Store"][fn.Name()] && fn.Name() == "RepoGet" {
@@ -312,15 +350,74 @@ func (pc *pathCheck) component(v ssa.Value, at ssa.Instruction, depth int) (bool
 				return true, ""
 			}
 		}
+		// a parameter of a helper that is not part of the store API: every call site passes an allowed component
+		if fr == nil && !pc.r.APIMethods["Store"][fn.Name()] && !pc.r.APIMethods["Repo"][fn.Name()] && depth < 8 {
+			sites := c.P.Callers(fn)
+			pi := -1
+			for i, q := range fn.Params {
+				if q == x {
+					pi = i
+				}
+			}
+			if len(sites) > 0 && pi >= 0 {
+				for _, site := range sites {
+					cc := site.Common()
+					if cc.IsInvoke() || cc.StaticCallee() != fn || pi >= len(cc.Args) {
+						return false, fmt.Sprintf("parameter %s of %s (called dynamically)", x.Name(), c.P.FuncName(fn))
+					}
+					if ok, why := pc.componentIn(cc.Args[pi], site, depth+2, nil); !ok {
+						return false, why
+					}
+				}
+				return true, ""
+			}
+		}
 		return false, fmt.Sprintf("parameter %s of %s", x.Name(), c.P.FuncName(fn))
+	case *ssa.Extract:
+		// one result of a helper of this module: what its non-error returns return there
+		if hc, ok := x.Tuple.(*ssa.Call); ok && depth < 8 {
+			if h := pc.helperOf(hc); h != nil {
+				hrs := an.HelperReturns(x, nil)
+				for _, hr := range hrs {
+					if ok, why := pc.componentIn(hr.Val, hr.Ret, depth+1, &pframe{call: hc, callee: h, parent: fr}); !ok {
+						return false, why
+					}
+				}
+				if len(hrs) > 0 {
+					return true, ""
+				}
+			}
+		}
 	case *ssa.Call:
+		// a helper of this module that returns a string: its returned expressions, in place
+		if h := pc.helperOf(x); h != nil && depth < 8 {
+			if b, ok := x.Type().Underlying().(*types.Basic); ok && b.Kind() == types.String {
+				n := 0
+				for _, hb := range h.Blocks {
+					if len(hb.Instrs) == 0 {
+						continue
+					}
+					ret, ok := hb.Instrs[len(hb.Instrs)-1].(*ssa.Return)
+					if !ok || len(ret.Results) != 1 {
+						continue
+					}
+					n++
+					if ok, why := pc.componentIn(ret.Results[0], ret, depth+1, &pframe{call: x, callee: h, parent: fr}); !ok {
+						return false, why
+					}
+				}
+				if n > 0 {
+					return true, ""
+				}
+			}
+		}
 		if an.IsFunc(x, "path/filepath", "Join") || an.IsFunc(x, "path", "Join") {
 			elems, ok := variadicElems(x.Call.Args[0])
 			if !ok {
 				return false, "Join of a slice built elsewhere"
 			}
 			for _, e := range elems {
-				if ok, why := pc.component(e, at, depth+1); !ok {
+				if ok, why := pc.componentIn(e, at, depth+1, fr); !ok {
 					return false, why
 				}
 			}
@@ -340,7 +437,7 @@ func (pc *pathCheck) component(v ssa.Value, at ssa.Instruction, depth int) (bool
 				}
 				dv = ac.Call.Args[0]
 			}
-			return pc.digestOK(dv, x)
+			return pc.digestOK(dv, x, fr)
 		}
 	case *ssa.UnOp:
 		if x.Op == token.MUL {
@@ -349,7 +446,7 @@ func (pc *pathCheck) component(v ssa.Value, at ssa.Instruction, depth int) (bool
 				if sl, ok := ia.X.(*ssa.Slice); ok {
 					if elems, ok := variadicElems(sl); ok && len(elems) > 0 {
 						for _, e := range elems {
-							if ok, why := pc.component(e, at, depth+1); !ok {
+							if ok, why := pc.componentIn(e, at, depth+1, fr); !ok {
 								return false, why
 							}
 						}
@@ -359,7 +456,7 @@ func (pc *pathCheck) component(v ssa.Value, at ssa.Instruction, depth int) (bool
 			}
 			// captured variable with a single store
 			if o := an.Origin(x); o != ssa.Value(x) {
-				return pc.component(o, at, depth+1)
+				return pc.componentIn(o, at, depth+1, fr)
 			}
 			// struct field
 			if fa, ok := x.X.(*ssa.FieldAddr); ok {
@@ -379,11 +476,61 @@ func (pc *pathCheck) component(v ssa.Value, at ssa.Instruction, depth int) (bool
 }
 
 // digestOK: the digest value was validated on a dominating edge, or computed by a digester.
-func (pc *pathCheck) digestOK(dv ssa.Value, at *ssa.Call) (bool, string) {
+func (pc *pathCheck) digestOK(dv ssa.Value, at *ssa.Call, fr *pframe) (bool, string) {
 	o := an.Origin(dv)
+	// the digest is a parameter of a helper: it is the caller's argument, and it is the caller (at the call)
+	// that must have validated it — unless the helper validates it itself
+	if p, isParam := o.(*ssa.Parameter); isParam {
+		if arg, ok := fr.argOf(p); ok {
+			if okHere, _ := pc.digestGuarded(dv, o, at); okHere {
+				return true, ""
+			}
+			return pc.digestOK(arg, fr.call, fr.parent)
+		}
+	}
 	if call, _ := an.CallOf(o); call != nil && call.Call.IsInvoke() && call.Call.Method.Name() == "Digest" && isNamed(call.Call.Value.Type(), digestPkg, "Digester") {
 		return true, ""
 	}
+	if ok, _ := pc.digestGuarded(dv, o, at); ok {
+		return true, ""
+	}
+	// a digest parameter of a helper that is not part of the store API: validated at every call site
+	if p, isParam := o.(*ssa.Parameter); isParam && fr == nil {
+		fn := p.Parent()
+		if !pc.r.APIMethods["Repo"][fn.Name()] && !pc.r.APIMethods["Store"][fn.Name()] && !pc.r.APIMethods["BlobCreator"][fn.Name()] {
+			sites := pc.c.P.Callers(fn)
+			pi := -1
+			for i, q := range fn.Params {
+				if q == p {
+					pi = i
+				}
+			}
+			all := len(sites) > 0 && pi >= 0
+			for _, site := range sites {
+				cc, isCall := site.(*ssa.Call)
+				if !isCall || cc.Call.IsInvoke() || cc.Call.StaticCallee() != fn || pi >= len(cc.Call.Args) {
+					all = false
+					break
+				}
+				if ok, _ := pc.digestOK(cc.Call.Args[pi], cc, nil); !ok {
+					all = false
+					break
+				}
+			}
+			if all {
+				return true, ""
+			}
+		}
+	}
+	// parsed digests are valid by construction
+	if pcall, idx := an.CallOf(o); pcall != nil && idx == 0 && an.IsFunc(pcall, digestPkg, "Parse") {
+		return true, ""
+	}
+	return false, fmt.Sprintf("parts of the digest %s are used in a path at %s without a dominating ok-edge of Validate(): a digest such as \"sha256:../../x\" would escape the blobs directory", describeValue(pc.c, o), pc.c.P.Pos(at.Pos()))
+}
+
+// digestGuarded: a dominating ok-edge of Validate() on the same digest at the given point.
+func (pc *pathCheck) digestGuarded(dv, o ssa.Value, at *ssa.Call) (bool, string) {
 	for _, g := range an.GuardingEdges(at.Block()) {
 		x, nilSucc, ok := an.NilTest(g.If())
 		if !ok || g.Succ != nilSucc {
@@ -401,11 +548,7 @@ func (pc *pathCheck) digestOK(dv ssa.Value, at *ssa.Call) (bool, string) {
 			return true, ""
 		}
 	}
-	// parsed digests are valid by construction
-	if pcall, idx := an.CallOf(o); pcall != nil && idx == 0 && an.IsFunc(pcall, digestPkg, "Parse") {
-		return true, ""
-	}
-	return false, fmt.Sprintf("parts of the digest %s are used in a path at %s without a dominating ok-edge of Validate(): a digest such as \"sha256:../../x\" would escape the blobs directory", describeValue(pc.c, o), pc.c.P.Pos(at.Pos()))
+	return false, ""
 }
 
 // field: every store to the field, anywhere in the store package, stores an allowed component.
@@ -582,7 +725,7 @@ func sinkInUploadCreator(s fsSink) bool {
 }
 
 func init() {
-	register(&Rule{ID: "PV-CACHEKEY", Floor: 4,
+	register(&Rule{ID: "PV-CACHEKEY", Floor: 2,
 		Doc: "a cache that belongs to the server (not to one repository) is shared by all repositories: the key of every access made by a handler that addresses a repository either contains the repository name (the value passed to RepoGet) and, for the referrers page cache, the subject the request names, or its content-address component is read from that repository's own index — never a key made only of request-supplied values (`cache=<digest>`), which selects pages built for another repository or subject",
 		Run: func(c *core.Ctx) {
 			r := requireRoles(c)
